@@ -345,6 +345,13 @@ type runTraceStats struct {
 	OverwriteDays  int
 	GrowingDays    int
 	FailedRuns     int
+	Irrigations    int
+	Sowings        int
+	Harvests       int
+	Fertilisations int
+	Tillages       int
+	StageChanges   int
+	lastNdg, lastNtil, lastIntw int
 }
 
 func (s *runTraceStats) scan(path string) {
@@ -398,10 +405,37 @@ func (s *runTraceStats) scan(path string) {
 			if b, _ := e["overwrite"].(bool); b {
 				s.OverwriteDays++
 			}
+			if b, _ := e["irrigated"].(bool); b {
+				s.Irrigations++
+			}
+		case "run.config":
+			s.lastNdg, s.lastNtil, s.lastIntw = 0, 0, 0
+		case "nitro.mineral":
+			nd, _ := e["ndg"].(json.Number).Int64()
+			nt, _ := e["ntil"].(json.Number).Int64()
+			if int(nd) > s.lastNdg {
+				s.Fertilisations++
+			}
+			if int(nt) > s.lastNtil {
+				s.Tillages++
+			}
+			s.lastNdg, s.lastNtil = int(nd), int(nt)
+		case "sub.nitro":
+			if b, _ := e["finished"].(bool); b {
+				s.Harvests++
+			}
 		case "sub.crop":
 			if b, _ := e["growing"].(bool); b {
 				s.GrowingDays++
 			}
+			if b, _ := e["sowday"].(bool); b {
+				s.Sowings++
+			}
+			iw, _ := e["intwick"].(json.Number).Int64()
+			if int(iw) > s.lastIntw {
+				s.StageChanges++
+			}
+			s.lastIntw = int(iw)
 		case "run.end":
 			if b, _ := e["ok"].(bool); !b {
 				s.FailedRuns++
@@ -413,7 +447,8 @@ func (s *runTraceStats) scan(path string) {
 func (s *runTraceStats) cover(c *core.Ctx) {
 	c.Cover("branches", map[string]int{"days": s.Days, "subSteps": s.SubSteps, "multiStepDays": s.MultiStepDays, "maxSteps": s.MaxSteps,
 		"drainFlowSubSteps": s.DrainFlowSteps, "upwardAtBottomSubSteps": s.UpwardBottom, "infiltrationSubSteps": s.Infiltration,
-		"evaporationSubSteps": s.Evaporation, "overwriteDaysSkipped": s.OverwriteDays, "growingDays": s.GrowingDays, "failedRuns": s.FailedRuns})
+		"evaporationSubSteps": s.Evaporation, "overwriteDaysSkipped": s.OverwriteDays, "growingDays": s.GrowingDays, "failedRuns": s.FailedRuns,
+		"irrigations": s.Irrigations, "sowings": s.Sowings, "harvests": s.Harvests, "fertilisations": s.Fertilisations, "tillages": s.Tillages, "stageChanges": s.StageChanges})
 }
 
 // scanResultFiles counts NaN / Inf tokens in the result files of a run.
